@@ -274,3 +274,81 @@ Proof.
     clear -Ei. revert i Ei. induction (a_comps sa) as [|h t IH]; intros i Ei; [discriminate|]. cbn in Ei.
     destruct (c =? h) eqn:E; [apply N.eqb_eq in E; subst; now left|]. destruct (col_index t c) eqn:X; [|discriminate]. right. eapply IH; eauto.
 Qed.
+
+(* ---------- Spawn / Despawn ---------- *)
+Definition WInv (w : world) : Prop := StoreInv w /\ GraphInv w /\ aby_lookup w [] = Some 0.
+
+Lemma WInv_arch0 w : WInv w -> exists a0, arch_at w 0 = Some a0 /\ a_comps a0 = [].
+Proof. intros (_ & (_ & _ & Hb2 & _) & H0). exact (Hb2 _ _ H0). Qed.
+
+Lemma insert_key_indep {V} (f g : key -> V) m k m' : insert_with f m = Some (k, m') -> exists m'', insert_with g m = Some (k, m'').
+Proof.
+  unfold insert_with. destruct (sget (slots m) (next_free m)) as [s|].
+  - intros H. inversion H; subst. eauto.
+  - destruct (_ =? U32MAX); [discriminate|]. intros H. inversion H; subst. eauto.
+Qed.
+
+(* one materialised reservation: archetypes.spawn(id) + the slot-map insertion *)
+Lemma spawn_one_ok w k m0 :
+  WInv w -> insert_with (fun _ => (0, 0)) (w_ents w) = Some (k, m0) ->
+  exists loc w1 ents', arch_spawn w k = (loc, w1) /\ insert_with (fun _ => loc) (w_ents w1) = Some (k, ents') /\
+    WInv (set_ents w1 ents') /\
+    (forall c, abs (set_ents w1 ents') k c = None) /\ sm_get k (w_ents (set_ents w1 ents')) = Some loc /\
+    (forall e c, e <> k -> abs (set_ents w1 ents') e c = abs w e c) /\
+    (forall e, e <> k -> sm_get e (w_ents (set_ents w1 ents')) = sm_get e (w_ents w)).
+Proof.
+  intros HW Hins. pose proof HW as (Hst & Hg & H0). destruct (WInv_arch0 w HW) as (a0 & Ha0 & Hc0).
+  pose proof Hst as (Hsm & Hl & Hr).
+  unfold arch_spawn. unfold arch_at in Ha0. rewrite Ha0.
+  assert (Hres : exists cap' ep' re, reserve_one a0 = (set_cap a0 cap' ep', re)).
+  { unfold reserve_one. destruct (nlen (a_rows a0) =? a_cap a0); [eauto|]. exists (a_cap a0), (a_epoch a0), false. now rewrite set_cap_eta. }
+  destruct Hres as (cap' & ep' & re & ->). cbn [a_rows set_cap set_rows].
+  set (a2 := set_rows (set_cap a0 cap' ep') (a_rows a0 ++ [(k, [])])).
+  set (w1 := set_archs w (slab_set (w_archs w) 0 a2)).
+  set (wn := if (nlen (a_rows a0 ++ [(k, [])]) =? 1) || re then notify_refresh w1 0 else w1).
+  assert (En : w_ents wn = w_ents w) by (unfold wn; destruct (_ || re); rewrite ?notify_refresh_ents; reflexivity).
+  assert (An : w_archs wn = w_archs w1) by (unfold wn; destruct (_ || re); rewrite ?notify_refresh_archs; reflexivity).
+  assert (Bn : w_aby wn = w_aby w) by (unfold wn; destruct (_ || re); rewrite ?notify_refresh_aby; reflexivity).
+  destruct (insert_key_indep (fun _ => (0, 0)) (fun _ => (0, nlen (a_rows a0))) _ _ _ Hins) as (ents' & Hins').
+  exists (0, nlen (a_rows a0)), wn, ents'. split; [reflexivity|]. rewrite En. split; [exact Hins'|].
+  assert (Hknew : @sm_get eloc k ents' = Some (0, nlen (a_rows a0))) by exact (insert_get_new _ _ _ _ Hsm Hins').
+  assert (Hkold : forall e, e <> k -> @sm_get eloc e ents' = sm_get e (w_ents w)) by (intros e He; exact (insert_get_other _ _ _ _ e Hsm Hins' He)).
+  assert (Hkfresh : sm_get k (w_ents w) = None) by exact (insert_get_fresh _ _ _ _ Hsm Hins').
+  assert (Hat : forall j, arch_at (set_ents wn ents') j = if j =? 0 then Some a2 else arch_at w j).
+  { intros j. unfold arch_at. cbn [w_archs set_ents]. rewrite An. unfold w1. cbn [w_archs set_archs]. destruct (j =? 0) eqn:E.
+    - apply N.eqb_eq in E. subst j. eapply slab_get_set_eq; eauto.
+    - apply N.eqb_neq in E. now rewrite slab_get_set_neq by auto. }
+  assert (Hrows2 : forall j x, nget (a_rows a2) j = Some x -> (j = nlen (a_rows a0) /\ x = (k, [])) \/ nget (a_rows a0) j = Some x).
+  { intros j x Hj. unfold a2 in Hj. cbn [a_rows set_rows] in Hj. destruct (N.lt_ge_cases j (nlen (a_rows a0))) as [L|G].
+    - right. now rewrite nget_app_l in Hj.
+    - rewrite nget_app_r in Hj by exact G. left. destruct (j - nlen (a_rows a0) =? 0) eqn:Z.
+      + apply N.eqb_eq in Z. cbn [nget] in Hj. rewrite Z in Hj. cbn in Hj. inversion Hj. split; [lia|reflexivity].
+      + cbn [nget] in Hj. rewrite Z in Hj. discriminate. }
+  assert (Hst' : StoreInv (set_ents wn ents')).
+  { unfold StoreInv. cbn [w_ents set_ents]. split; [eapply insert_inv; eauto|]. split.
+    - intros e ai row He. destruct (key_eq_dec e k) as [->|Hne].
+      + rewrite Hknew in He. inversion He; subst ai row. rewrite Hat, N.eqb_refl. exists a2, []. split; [reflexivity|].
+        unfold a2. cbn [a_rows set_rows]. apply nget_snoc_last.
+      + rewrite (Hkold e Hne) in He. destruct (Hl _ _ _ He) as (b & vb & Hb & Hnb). rewrite Hat. destruct (ai =? 0) eqn:E.
+        * apply N.eqb_eq in E. subst ai. unfold arch_at in Hb. rewrite Ha0 in Hb. inversion Hb; subst b. exists a2, vb. split; [reflexivity|].
+          unfold a2. cbn [a_rows set_rows]. rewrite nget_app_l; [exact Hnb|eapply nget_some_lt; eauto].
+        * eauto.
+    - intros ai b row e vals Hb Hn. rewrite Hat in Hb. destruct (ai =? 0) eqn:E.
+      + apply N.eqb_eq in E. subst ai. inversion Hb; subst b. destruct (Hrows2 _ _ Hn) as [[-> Hx]|Hold].
+        * inversion Hx; subst e vals. split; [exact Hknew|]. unfold a2. cbn [a_comps set_rows set_cap]. now rewrite Hc0.
+        * destruct (Hr _ _ _ _ _ Ha0 Hold) as [Hg0 Hlen]. split; [|exact Hlen].
+          assert (e <> k) by (intros ->; congruence). now rewrite Hkold.
+      + destruct (Hr _ _ _ _ _ Hb Hn) as [Hg0 Hlen]. split; [|exact Hlen]. assert (e <> k) by (intros ->; congruence). now rewrite Hkold. }
+  assert (Hg' : GraphInv (set_ents wn ents')).
+  { eapply (GraphInv_ext (set_archs w (slab_set (w_archs w) 0 a2))); [cbn [w_archs set_ents]; exact An|cbn [w_aby set_ents]; exact Bn|].
+    eapply GraphInv_set; [exact Hg|exact Ha0|repeat split]. }
+  split; [split; [exact Hst'|split; [exact Hg'|unfold aby_lookup; cbn [w_aby set_ents]; rewrite Bn; exact H0]]|].
+  split; [|split; [exact Hknew|split]].
+  - intros c. rewrite (abs_of_row (set_ents wn ents') 0 a2 (nlen (a_rows a0)) k [] c Hst'); [|rewrite Hat; reflexivity|unfold a2; cbn [a_rows set_rows]; apply nget_snoc_last].
+    unfold row_col. destruct (col_index (a_comps a2) c) as [i|]; [|reflexivity]. now destruct (i =? 0).
+  - intros e c Hne. unfold abs at 1. cbn [w_ents set_ents]. rewrite (Hkold e Hne). unfold abs.
+    destruct (sm_get e (w_ents w)) as [[ai row]|] eqn:He; [|reflexivity]. rewrite Hat. destruct (ai =? 0) eqn:E; [|reflexivity].
+    apply N.eqb_eq in E. subst ai. unfold arch_at. rewrite Ha0. destruct (Hl _ _ _ He) as (b & vb & Hb & Hnb). unfold arch_at in Hb. rewrite Ha0 in Hb. inversion Hb; subst b.
+    unfold a2. cbn [a_rows set_rows]. rewrite nget_app_l by (eapply nget_some_lt; eauto). rewrite Hnb. apply row_col_comps. reflexivity.
+  - intros e Hne. cbn [w_ents set_ents]. exact (Hkold e Hne).
+Qed.
